@@ -33,7 +33,7 @@ def check(pid, tier, seed, replay=None):
             absprogs += L.abstract_programs(sim)
             absprogs += L.abstract_programs(L.enumerate_programs(mdir, 2, 0, emit=True, workers=2, opset="BigOps"))
             stats = {"distinct": ex.distinct, "generated": ex.generated}
-            g = Gen(seed)
+            g = Gen(seed, binary_safe=True)
             progs = [p for p in (g.program("p%d" % i, ap) for i, ap in enumerate(absprogs)) if p is not None]
             for p in progs:
                 # FloatingPointPrecision deliberately rounds the JSON rendering only (the binary encoder ignores it):
